@@ -48,5 +48,5 @@ PROP = Property(
 META = {
     "text": "Proof: Model/Rules.lean mirrors VoteRule/CommitRule of the three rulesets and Blockchain.Extends/Get as coded (qcRef zero-hash guard, order of look-ups, early exits, lock update before the third look-up); Spec/Rules.lean states the published rules from the papers (HotStuff PODC'19 Alg. 4/5, Fast-HotStuff, Jehl's simplified HotStuff) independently, relationally (ThreeChain / TwoChain / SimpleChain, safeNode with branch membership) and executably. Theorems, for every store (any forest, any views, certificate pointers equal to or different from parents, missing blocks; nothing stored under the zero hash), every lock block and every proposal: commit decision = published decide step and new lock = published lock step for all three rulesets (chained_/fast_/simple_commit_eq_spec, *_commit_iff, *_lock_eq_spec); vote decision = published condition for simplified HotStuff and Fast-HotStuff's plain rule (simple_vote_eq_spec, fast_vote_plain_eq_spec); commit_is_chain_tail: whatever any commit rule returns is the tail of a chain of blocks each certified by the next one's certificate, in consecutive views, directly linked; presentation_conforms_partial: for every list of store/vote/commit operations on any blocks in any order, the model's stores, locks, commit answers are those of the specification's replica and every positive vote is allowed by the published condition. PARTIAL: for the two vote paths that call Blockchain.Extends (chained HotStuff, Fast-HotStuff with aggregated QC) soundness (vote => published condition) holds for every forest, equality only when parent links increase the view (chained_vote_eq_spec_partial, fast_vote_agg_eq_spec_partial); *_counterexample theorems exhibit the 3-block forest where the code refuses although the block extends the lock; reproduced on the real code and recorded as known finding extends-view-inversion (conservative direction: never an unsafe vote). Defect 13 (simplified HotStuff committed through certificate views 1<-5<-3) is shown on the unpatched code by the check (VIOLATION commit-not-chain-tail) and repaired by fixes/C04-simple-consecutive.diff; simple_unrepaired_counterexample keeps the witness. Correspondence: real rules.New rulesets over a real blockchain.Blockchain with a silent sender vs the model and vs the Spec oracle: all 3-block forests (parents in genesis/earlier, certificate pointers incl. the zero hash, views 1..4) x presentation orders x one missing block, all 4-block certificate chains with all parents and views 1..5, Fast-HotStuff's plain rule on all (view, qc view, current view) in 0..5, seeded random forests of 6..30 blocks with forks, gaps, equal views, inversions, stale certificate views, missing and late blocks.",
     "note": "Trusted: Lean kernel, propext/Quot.sound/Classical.choice, gofacts, correspondence harness, SHA-256 as injective naming. Not covered here: fetch answers inside Blockchain.Get (C13), signature checks of certificates (C02), the voter's own checks around VoteRule (C03), uint64 wrap-around.",
-    "technique": "Lean 4 theorems (model = independent spec for all stores/locks/proposals; chain-tail; presentation-order induction) + syntactic facts on the rule code + differential correspondence with Spec oracle (small-scope exhaustive + random)",
+    "technique": "Lean 4 theorems (model = independent spec for all stores/locks/proposals; chain-tail; presentation-order induction) + syntactic facts on the rule code + Go->Lean translation of qcRef/CommitRule/VoteRule of the three rulesets with bridging theorems (Props/C04Gen) + differential correspondence with Spec oracle (small-scope exhaustive + random)",
 }
